@@ -36,6 +36,10 @@ def run(chk, replay=None):
             chk.note_tlc(run_)
             # deviations of unspecified dimensions belong to C05 / C06, not to unit scaling
             chk.absorb(recs, verdicts, rp2)
+    r = vcheck.apalache_laws('NixUnitLaws')
+    chk.extra['apalache_unbounded_laws'] = r
+    if r == 'Error':
+        raise vcheck.MachineryError('Apalache refutes the exponent laws of the specification')
     chk.exhaustive = True
     chk.traces_validated = len(chk.distinct)
     chk.extra['request_unit_prefixes'] = [p[0] for p in prefixes]
